@@ -500,4 +500,194 @@ theorem parseClass_type (n : Nat) : parseClass (renderType n) = none := by
   | nil => exact absurd hd (decimal_ne_nil n)
   | cons d ds => simp [eqIgnoreCase, lowerU8]
 
+/-! ### relative names and `@` -/
+
+/-- labels each followed by a dot, then anything: the builder holds the labels -/
+theorem nameLoop_dotted (origin : Option (List UInt8)) (nl : Nat) (ls : List PLabel)
+    (hforms : ∀ l ∈ ls, ∀ x ∈ l, nameFormOK x.1 x.2 = true)
+    (rest : List UInt8) (paren : Bool) (donels : List (List UInt8)) (line ll : Nat)
+    (hLs : LabelsOK (donels ++ ls.map labelOctets))
+    (htotal : (flatLabels (donels ++ ls.map labelOctets)).length + 1 ≤ 255) :
+    ∃ ll', nameLoop origin nl ((ls.flatMap fun l => renderLabel l ++ [46]) ++ rest) line ll paren
+        ⟨flatLabels donels, [], donels.length + 1⟩ =
+      nameLoop origin nl rest (line + nameNewlines ls) ll' paren
+        ⟨flatLabels (donels ++ ls.map labelOctets), [], (donels ++ ls.map labelOctets).length + 1⟩ := by
+  induction ls generalizing donels line ll with
+  | nil => exact ⟨ll, by simp [nameNewlines]⟩
+  | cons l ls ih =>
+    have hl := hforms l (by simp)
+    have hforms' : ∀ l' ∈ ls, ∀ x ∈ l', nameFormOK x.1 x.2 = true := fun l' h' => hforms l' (by simp [h'])
+    have hlok := hLs (labelOctets l) (by simp)
+    rw [labelOctets_length] at hlok
+    have hge := flatLabels_length_ge hLs
+    have hcount : (donels ++ (l :: ls).map labelOctets).length = donels.length + 1 + ls.length := by
+      simp; omega
+    rw [hcount] at hge
+    have hsplit : flatLabels (donels ++ (l :: ls).map labelOctets) =
+        flatLabels donels ++ (UInt8.ofNat l.length :: labelOctets l) ++ flatLabels (ls.map labelOctets) := by
+      simp [flatLabels, encLabel, labelOctets_length]
+    have hlen : (flatLabels donels).length + 1 + l.length + (flatLabels (ls.map labelOctets)).length + 1 ≤ 255 := by
+      rw [hsplit] at htotal; simp [labelOctets_length] at htotal; omega
+    have e : ((l :: ls).flatMap fun l => renderLabel l ++ [46]) ++ rest =
+        renderLabel l ++ (46 :: ((ls.flatMap fun l => renderLabel l ++ [46]) ++ rest)) := by simp
+    rw [e, nameLoop_label origin nl l hl _ line ll paren _ (by simp; omega)
+      (by simp [Builder.wireLen]; omega)]
+    simp only [List.nil_append]
+    rw [nameLoop_dot origin nl _ _ ll paren _ (by
+        have := hlok.1
+        intro h; simp [labelOctets] at h; subst h; simp at this)
+      (by simp [Builder.wireLen, labelOctets_length]; omega)
+      (by simp only; omega)]
+    have hd : flatLabels donels ++ UInt8.ofNat (labelOctets l).length :: labelOctets l =
+        flatLabels (donels ++ [labelOctets l]) := by simp [flatLabels, encLabel]
+    simp only [hd]
+    obtain ⟨ll', h'⟩ := ih hforms' (donels ++ [labelOctets l]) (line + escNewlines l) (line + escNewlines l)
+      (by simpa using hLs) (by simpa using htotal)
+    simp only [List.length_append, List.length_singleton] at h'
+    refine ⟨ll', ?_⟩
+    rw [h']
+    have e1 : line + escNewlines l + nameNewlines ls = line + nameNewlines (l :: ls) := by
+      simp [nameNewlines]; omega
+    have e2 : donels ++ [labelOctets l] ++ ls.map labelOctets = donels ++ (l :: ls).map labelOctets := by simp
+    rw [e1, e2]
+    have e3 : donels.length + 1 + (ls.map labelOctets).length + 1 = (donels ++ (l :: ls).map labelOctets).length + 1 := by
+      simp; omega
+    rw [e3]
+
+theorem nameNewlines_snoc (ls : List PLabel) (l : PLabel) :
+    nameNewlines (ls ++ [l]) = nameNewlines ls + escNewlines l := by
+  simp [nameNewlines]
+
+theorem renderLabels_snoc (ls : List PLabel) (l : PLabel) :
+    renderLabels (ls ++ [l]) = (ls.flatMap fun x => renderLabel x ++ [46]) ++ renderLabel l := by
+  induction ls with
+  | nil => simp [renderLabels]
+  | cons x ls ih =>
+    cases hls : ls ++ [l] with
+    | nil => simp at hls
+    | cons y ys =>
+      simp only [List.cons_append, hls, renderLabels]
+      rw [← hls, ih]
+      simp
+
+/-- **Relative names**: labels separated by dots (no trailing dot), followed by a field end, are
+    completed with the origin -/
+theorem nameLoop_rel (o : List UInt8) (nl : Nat) (ls : List PLabel) (l : PLabel)
+    (hforms : ∀ l' ∈ ls ++ [l], ∀ x ∈ l', nameFormOK x.1 x.2 = true)
+    (rest : List UInt8) (hrest : atFieldEnd rest = true) (paren : Bool) (line : Nat)
+    (hLs : LabelsOK ((ls ++ [l]).map labelOctets)) (ho : NameWF o)
+    (htotal : (flatLabels ((ls ++ [l]).map labelOctets)).length + o.length ≤ 255) :
+    nameLoop (some o) nl (renderLabels (ls ++ [l]) ++ rest) line line paren Builder.new =
+      .ok (flatLabels ((ls ++ [l]).map labelOctets) ++ o,
+           ⟨rest, line + nameNewlines (ls ++ [l]), paren⟩) := by
+  have hol : 1 ≤ o.length := by
+    obtain ⟨lo, _, rfl, _⟩ := ho; simp [encodeName]
+  have hsplitAll : flatLabels ((ls ++ [l]).map labelOctets) =
+      flatLabels (ls.map labelOctets) ++ (UInt8.ofNat l.length :: labelOctets l) := by
+    simp [flatLabels, encLabel, labelOctets_length]
+  have hLs' : LabelsOK ([] ++ ls.map labelOctets) := fun x hx => hLs x (by simp at hx ⊢; exact .inl hx)
+  have hlok := hLs (labelOctets l) (by simp)
+  rw [labelOctets_length] at hlok
+  have hlenAll : (flatLabels (ls.map labelOctets)).length + 1 + l.length + o.length ≤ 255 := by
+    rw [hsplitAll] at htotal; simp [labelOctets_length] at htotal; omega
+  obtain ⟨ll', hd⟩ := nameLoop_dotted (some o) nl ls (fun l' h' => hforms l' (by simp [h']))
+    (renderLabel l ++ rest) paren [] line line hLs' (by simp; omega)
+  rw [renderLabels_snoc, List.append_assoc]
+  simp only [flatLabels, List.flatMap_nil, List.length_nil, Nat.zero_add, List.nil_append] at hd
+  rw [show Builder.new = ⟨[], [], 1⟩ from rfl, hd]
+  rw [nameLoop_label (some o) nl l (hforms l (by simp)) rest _ ll' paren _ (by simp; omega)
+    (by simp [Builder.wireLen, flatLabels] at hlenAll ⊢; omega)]
+  rw [nameLoop.eq_def]
+  have hne : (labelOctets l).isEmpty = false := by
+    have := hlok.1
+    cases hl : labelOctets l with
+    | nil => simp [labelOctets] at hl; subst hl; simp at this
+    | cons _ _ => rfl
+  simp only [hrest, ↓reduceIte, List.nil_append, hne, Bool.false_eq_true]
+  -- finish_with_suffix
+  have hb : BInv ⟨List.flatMap encLabel (ls.map labelOctets), labelOctets l, (ls.map labelOctets).length + 1⟩ :=
+    ⟨ls.map labelOctets, hLs', rfl, rfl, by simp [labelOctets_length]; omega,
+      by simp [Builder.wireLen, labelOctets_length, flatLabels] at hlenAll ⊢; omega⟩
+  have hfit : ¬ (Builder.wireLen ⟨List.flatMap encLabel (ls.map labelOctets), labelOctets l, (ls.map labelOctets).length + 1⟩
+      + o.length > Gen.MAX_WIRE_LEN) := by
+    simp [Builder.wireLen, labelOctets_length, flatLabels, Gen.MAX_WIRE_LEN] at hlenAll ⊢; omega
+  have haux := finishWithSuffix_aux hb ho (by simp [hne]) hfit
+  unfold Builder.finishWithSuffix
+  have hnl : ¬ ((ls.map labelOctets).length + 1 + countLabels 256 o > Gen.MAX_N_LABELS) := by
+    have h2 : (ls.map labelOctets).length + 1 + countLabels 256 o ≤ 128 := haux.2
+    simp only [Gen.MAX_N_LABELS]; omega
+  simp only [hne, Bool.false_eq_true, ↓reduceIte, hfit, hnl]
+  rw [nameNewlines_snoc, hsplitAll, labelOctets_length]
+  simp [flatLabels, Nat.add_assoc]
+
+/-- **`@`** stands for the origin -/
+theorem parseName_at (o : List UInt8) (rest : List UInt8) (hrest : atFieldEnd rest = true) (line : Nat)
+    (paren : Bool) : parseName (some o) ⟨64 :: rest, line, paren⟩ = .ok (o, ⟨rest, line, paren⟩) := by
+  unfold parseName
+  simp [expectField, expectFieldImpl, hrest]
+
+theorem label_nonempty {l : PLabel} (h : 0 < (labelOctets l).length) : l ≠ [] := by
+  intro hl; subst hl; simp [labelOctets] at h
+
+/-- **Relative names through `parse_name`**: completed with the origin -/
+theorem parseName_rel (o : List UInt8) (ho : NameWF o) (ls : List PLabel) (l : PLabel)
+    (hforms : ∀ l' ∈ ls ++ [l], ∀ x ∈ l', nameFormOK x.1 x.2 = true)
+    (hLs : LabelsOK ((ls ++ [l]).map labelOctets))
+    (htotal : (flatLabels ((ls ++ [l]).map labelOctets)).length + o.length ≤ 255)
+    (hnotat : renderLabels (ls ++ [l]) ≠ [64])
+    (rest : List UInt8) (hrest : atFieldEnd rest = true) (line : Nat) (paren : Bool) :
+    parseName (some o) ⟨renderLabels (ls ++ [l]) ++ rest, line, paren⟩ =
+      .ok (flatLabels ((ls ++ [l]).map labelOctets) ++ o, ⟨rest, line + nameNewlines (ls ++ [l]), paren⟩) := by
+  have hloop := nameLoop_rel o line ls l hforms rest hrest paren line hLs ho htotal
+  -- the first label and what follows it
+  obtain ⟨l1, tail, htext, hl1mem, htail⟩ : ∃ l1 tail, renderLabels (ls ++ [l]) ++ rest = renderLabel l1 ++ tail ∧
+      l1 ∈ ls ++ [l] ∧ ((∃ t', tail = 46 :: t') ∨ (tail = rest ∧ ls = [] ∧ l1 = l)) := by
+    rw [renderLabels_snoc]
+    cases ls with
+    | nil => exact ⟨l, rest, by simp, by simp, .inr ⟨rfl, rfl, rfl⟩⟩
+    | cons x ls' => exact ⟨x, _, by simp; rfl, by simp, .inl ⟨_, rfl⟩⟩
+  have hl1ok := hLs (labelOctets l1) (List.mem_map.mpr ⟨l1, hl1mem, rfl⟩)
+  have hl1ne : l1 ≠ [] := label_nonempty hl1ok.1
+  have hl1forms := hforms l1 hl1mem
+  have hat : expectField [64] ⟨renderLabels (ls ++ [l]) ++ rest, line, paren⟩ =
+      (false, ⟨renderLabels (ls ++ [l]) ++ rest, line, paren⟩) := by
+    rw [htext]
+    cases l1 with
+    | nil => exact absurd rfl hl1ne
+    | cons x l1' =>
+      obtain ⟨b, f⟩ := x
+      have hl1' : ∀ y ∈ l1', nameFormOK y.1 y.2 = true := fun y hy => hl1forms y (by simp [hy])
+      cases f with
+      | raw =>
+        by_cases hb : (b == 64) = true
+        · apply expectField_fail_of_not_end
+          show atFieldEnd (renderLabel l1' ++ tail) = false
+          rcases htail with ⟨t', rfl⟩ | ⟨rfl, hls, hl1l⟩
+          · exact notEnd_label_then_dot l1' hl1' t'
+          · -- a single label: it is not the lone `@`
+            cases l1' with
+            | nil =>
+              exfalso
+              apply hnotat
+              subst hls
+              rw [← hl1l]
+              simp at hb
+              simp [renderLabels, renderLabel, renderOctet, hb]
+            | cons y l1'' =>
+              obtain ⟨c, t, hct, _, hend⟩ := renderLabel_head (l := y :: l1'') (by simp) hl1'
+              rw [hct]
+              exact atFieldEnd_of_head _ hend
+        · exact expectField_fail_of_head _ (c := b) rfl (by simpa using hb)
+      | esc => exact expectField_fail_of_head _ (c := 92) rfl (by decide)
+      | dec => exact expectField_fail_of_head _ (c := 92) rfl (by decide)
+  have hdot : expectField [46] ⟨renderLabels (ls ++ [l]) ++ rest, line, paren⟩ =
+      (false, ⟨renderLabels (ls ++ [l]) ++ rest, line, paren⟩) := by
+    rw [htext]
+    obtain ⟨c, t, hct, hc46, _⟩ := renderLabel_head hl1ne hl1forms
+    rw [hct]
+    exact expectField_fail_of_head _ (c := c) rfl hc46
+  unfold parseName
+  simp only [hat, hdot, Bool.false_eq_true, ↓reduceIte]
+  exact hloop
+
 end QV.ZF
